@@ -28,6 +28,7 @@ def build_all():
 
 def parse_log(path):
     rs, vs, infos, stats, samples, ended = {}, [], [], None, [], False
+    cases = {}
     with open(path) as f:
         for line in f:
             if line.startswith("R "):
@@ -36,6 +37,9 @@ def parse_log(path):
             elif line.startswith("V "):
                 p = line.rstrip("\n").split(" ", 3)
                 vs.append({"idx": int(p[1]), "clause": p[2], "detail": json.loads(p[3])})
+            elif line.startswith("CASE "):
+                p = line.rstrip("\n").split(" ", 2)
+                cases[int(p[1])] = json.loads(p[2])
             elif line.startswith("I "):
                 p = line.rstrip("\n").split(" ", 3)
                 infos.append({"idx": int(p[1]), "clause": p[2], "detail": json.loads(p[3])})
@@ -47,6 +51,8 @@ def parse_log(path):
                 ended = True
     if not ended:
         raise HarnessError("clisim log %s is incomplete (simulator died?)" % path)
+    for v in vs:
+        v["case"] = cases.get(v["idx"])
     return rs, vs, infos, stats, samples
 
 
@@ -90,12 +96,12 @@ def group(args):
         outs.append(parse_log(path))
         os.remove(path)
     a, b = outs
-    issues = [(mode, v["clause"], v["idx"], v["detail"]) for v in a[1]]
+    issues = [(mode, v["clause"], v["idx"], v["detail"], v.get("case")) for v in a[1]]
     for i, f in a[0].items():
         if b[0].get(i) != f:
             issues.append((mode, "nondeterministic", i,
                            "run #%d: status / stdout / syscall trace differ between two executions of the same case: %s vs %s" % (
-                               i, f, b[0].get(i))))
+                               i, f, b[0].get(i)), None))
     return {"issues": issues, "stats": a[3], "n": len(a[0]), "samples": a[4], "infos": a[2]}
 
 
@@ -146,7 +152,7 @@ def minimise(bins, case, sig, deadline):
 
     if not holds(case):
         return case, False
-    for key in ("plan", "real_fs"):
+    for key in ("plan", "real_fs", "env"):
         if case.get(key):
             def t(items, key=key):
                 c = dict(case)
@@ -222,7 +228,7 @@ def c18_check(tier, replay=None):
         infos += r["infos"]
     deadline = time.time() + (90 if tier == "quick" else 300)
     seen = {}
-    for mode, clause, idx, detail in sorted(issues, key=lambda x: (x[0], x[2])):
+    for mode, clause, idx, detail, case_in_log in sorted(issues, key=lambda x: (x[0], x[2])):
         sig = signature(clause, detail)
         if sig in seen:
             seen[sig] += 1
@@ -231,7 +237,9 @@ def c18_check(tier, replay=None):
         if len(seen) > 6:
             continue
         jp, sim, shim = bins
-        if mode == "grid":
+        if case_in_log is not None:
+            case = case_in_log
+        elif mode == "grid":
             p = run([sim, "grid"], timeout=60)
             case = json.loads(p.stdout.decode().splitlines()[idx])["case"]
         else:
@@ -252,7 +260,7 @@ def c18_check(tier, replay=None):
             sig, mode, idx, "-u " if mc.get("unquoted") else "", "--ast " if mc.get("ast") else "",
             "%s/%s" % (mc.get("expr_via"), mc.get("input_via")),
             bytes(mc["expr_bytes"]).decode("utf-8", "replace"), bytes(mc["input_bytes"]).decode("utf-8", "replace")[:200],
-            mc.get("plan"), detail))
+            (mc.get("plan") or []) + ["env %s=%s" % (k, v) for k, v in (mc.get("env") or [])], detail))
     wall = max(time.time() - rep.t0, 1e-9)
     info_summary = {}
     for i in infos:
@@ -293,6 +301,7 @@ def c18_check(tier, replay=None):
         "oracle = the library called in-process on the bytes actually delivered + serde_json pretty printing; diagnosis text is not compared, only required to exist",
         "clap's own refusals (conflicting / missing expression source) count as a diagnosis",
         "only UTF-8, NUL-free argv not starting with '-' is generated (other expressions go through -e)",
+        "jp runs in an otherwise empty environment plus, in a fifth of the cases, 1-3 variables from a pool of plausible names extended by every name jp is seen to query (getenv is traced by the shim); isatty on fd 0/1/2 can be made to answer 1",
         "EBADF on stdin is not injected (std documents a closed stdin as empty)",
         "sampling: a clean batch is evidence, not proof",
     ])
